@@ -6,7 +6,7 @@
 (* TLC has no floating point numbers; a double crosses the boundary as the    *)
 (* token of its bit pattern ("f" + 16 hex digits, "nan" for every NaN), a     *)
 (* boolean as "true"/"false".  trace.ndjson, one event per evaluation:        *)
-(*   [id, op, form |-> "var"|"lit", a, b, src, exp, got]                      *)
+(*   [id, op, form |-> "var"|"lit", a, b, src, exp, alt, got]                 *)
 (* `exp` is what the operator table prescribes for the operands a and b,      *)
 (* computed by the harness with the host language's IEEE-754 arithmetic;      *)
 (* `got` is what the library stored for <<set $r = a op b>> ("err": nothing). *)
@@ -19,8 +19,12 @@ Trace == ndJsonDeserialize("trace.ndjson")
 VARIABLES l, bad, nchk
 vars == <<l, bad, nchk>>
 
-Ops == {"add", "sub", "mul", "div", "mod", "lt", "le", "gt", "ge", "eq", "ne", "neg"}
+Ops == {"add", "sub", "mul", "div", "mod", "lt", "le", "gt", "ge", "eq", "ne", "neg", "strset", "strdecl", "strapp"}
 Arith == {"add", "sub", "mul", "div", "mod", "neg"}
+\* string literals with escapes (C03: set / declare / += store the literal's value): tokens "s" + hex of the
+\* bytes; `alt` is the second reading of such a literal (escapes resolved) - either is the literal's value
+StrOps == {"strset", "strdecl", "strapp"}
+IsStrTok(t) == Len(t) >= 1 /\ SubSeq(t, 1, 1) = "s"
 IsNumTok(t) == t = "nan" \/ (Len(t) = 17 /\ SubSeq(t, 1, 1) = "f")
 IsBoolTok(t) == t \in {"true", "false"}
 
@@ -30,10 +34,11 @@ Step ==
   /\ l <= Len(Trace)
   /\ l' = l + 1
   /\ LET e == Trace[l]
-         typed == IF e.op \in Arith THEN IsNumTok(e.exp) ELSE IsBoolTok(e.exp)
+         typed == IF e.op \in Arith THEN IsNumTok(e.exp) ELSE IF e.op \in StrOps THEN IsStrTok(e.exp) ELSE IsBoolTok(e.exp)
          what == IF e.op \notin Ops \/ ~typed THEN "malformed-event"     \* a mistake of the harness
-                 ELSE IF e.got = e.exp THEN "ok"
+                 ELSE IF e.got = e.exp \/ (e.alt # "" /\ e.got = e.alt) THEN "ok"
                  ELSE IF e.got \in {"err", "norun", "loaderror"} THEN "no-value"
+                 ELSE IF e.op \in StrOps THEN (IF IsStrTok(e.got) THEN "wrong-value" ELSE "wrong-type")
                  ELSE IF (e.op \in Arith) # IsNumTok(e.got) THEN "wrong-type"
                  ELSE "wrong-value"
      IN /\ nchk' = nchk + 1
